@@ -164,6 +164,7 @@ class Engine:
         self.float_strict = False
         self.const_overrides = {}
         self.ext_base_methods = {}
+        self.modattrs = {}
         self.spec_mode = False
         self.st = None
         self._decisions = None
@@ -826,6 +827,8 @@ class Engine:
             return LibCallable("object.__setattr__", _osa)
         if isinstance(obj, ModuleVal):
             d = obj.name + "." + name
+            if d in self.modattrs:
+                return self.modattrs[d]
             if obj.name == "numpy" and name in ("int8", "int16", "int32", "uint8", "uint16", "uint32", "float64"):
                 return ClassVal(name)
             if d in self.lib:
@@ -1679,6 +1682,11 @@ class Engine:
     def b_divmod(self, args, kwargs, node, fr):
         a, b = args
         if isinstance(a, Fl) or isinstance(b, Fl):
+            # real-mode float divmod by a positive constant: q = floor(a/b) (as a float), r = a - q*b
+            bz = z3.simplify(R(b))
+            if z3.is_rational_value(bz) and bz.numerator_as_long() > 0 and not self.float_strict:
+                q = z3.ToInt(R(a) / bz)
+                return (Fl(z3.ToReal(q)), Fl(R(a) - z3.ToReal(q) * bz))
             raise Unsupported("float divmod")
         if self.decide(self.num_eq0(b)):
             raise PyRaise("ZeroDivisionError", (), node)
